@@ -91,9 +91,16 @@ Proof.
       * apply prm_do; [simpl; eapply under_trans; [exact Hu|apply under_app]|]. intros [v|e]; [exact IHn|apply Hk].
 Qed.
 
+Lemma prm_rmtree_top : forall A d exc p (k : fres unit -> prog A),
+  under d p = true -> (forall r, prog_rm d exc (k r)) -> prog_rm d exc (rmtree_top p k).
+Proof.
+  intros A d exc p k Hu Hk. unfold rmtree_top. apply prm_do; [reflexivity|].
+  intros [v|e]; [apply prm_rmtree; auto|apply Hk].
+Qed.
+
 Lemma prm_remove : forall d ws i, d = ws ++ [i] -> prog_rm d [] (remove_job ws i ret_res).
 Proof.
-  intros d ws i ->. unfold remove_job. apply prm_rmtree; [apply under_refl|].
+  intros d ws i ->. unfold remove_job. apply prm_rmtree_top; [apply under_refl|].
   intros [v|e]; [apply prm_ret|]. destruct e; simpl; constructor.
 Qed.
 
@@ -133,8 +140,8 @@ Proof.
   - destruct (str_eqb n SPF || str_eqb n DOCF); [exact IHn|].
     apply prm_do; [reflexivity|]. intro rk. destruct (is_file_r rk).
     + apply prm_do; [simpl; apply under_app|]. intros [v|e]; [exact IHn|apply (Hfin (inr (POs e)))].
-    + destruct (is_dir_r rk); [|exact IHn].
-      apply prm_rmtree; [apply under_app|]. intros [v|e]; [exact IHn|apply (Hfin (inr (POs e)))].
+    + apply prm_do; [reflexivity|]. intro rk2. destruct (is_dir_r rk2); [|exact IHn].
+      apply prm_rmtree_top; [apply under_app|]. intros [v|e]; [exact IHn|apply (Hfin (inr (POs e)))].
 Qed.
 
 (* ------------------------------------------------------------------ CInv from "only removes" *)
